@@ -1068,7 +1068,10 @@ class XmlDocument(SubXmlBase):
 
             inst._safe_set(key, value, member, member_attrs)
 
-        for key, value_str in elt.attrib.items():
+        # _Attrib.items() is quadratic in the number of attributes; iterating
+        # the names is linear and only declared attributes are fetched.
+        for attr_name in elt.attrib:
+            key = attr_name
             member = flat_type_info.get(key, None)
             if member is None:
                 member, key = cls._type_info_alt.get(key, (None, key))
@@ -1077,6 +1080,8 @@ class XmlDocument(SubXmlBase):
 
             if not issubclass(member, XmlAttribute):
                 continue
+
+            value_str = elt.attrib[attr_name]
 
             if self.validator is self.SOFT_VALIDATION and not (
                               member.type.validate_string(member.type, value_str)):
